@@ -424,6 +424,14 @@ impl Ctx {
             eprintln!("machinery: cannot write evidence {}: {}", evp.display(), e);
             return 3;
         }
+        // a second copy per tier, so that the last quick and the last thorough run are both on record
+        // (evidence/<id>.json is whichever ran last)
+        let by_tier = root.join("evidence").join("by-tier");
+        let _ = std::fs::create_dir_all(&by_tier);
+        let _ = std::fs::write(
+            by_tier.join(format!("{}.{}.json", self.id, self.tier.name())),
+            serde_json::to_string_pretty(&ev).unwrap(),
+        );
 
         for l in &known_lines {
             println!("{}", l);
